@@ -379,8 +379,10 @@ ProvokableAt(s) ==
             -> {"FTPServerError"}
     [] s \in {"f_login_code", "fp_login_code", "f_size_code"} -> {"FTPServerError"}
     [] s = "f_symlink" -> {"OSError", "ValueError"}              \* os.symlink: name exists / no such directory / NUL in the name
-    [] s \in {"h_writer_continue", "f_writer_continue"} ->       \* 200 to a Range request; REST refused
+    [] s = "h_writer_continue" ->                                \* 416 (or another error status) to the Range request
             IF Fixed("continue_refused") THEN {"ProtocolError"} ELSE {"OSError"}
+    [] s = "f_writer_continue" ->                                \* REST refused (repaired tree: the file is written anew)
+            IF Fixed("continue_refused") THEN {} ELSE {"OSError"}
     [] s \in {"f_listing_parse", "fp_listing_parse", "pp_listing_parse"} ->         \* ls/listing.py:88 fields[1]
             {"ListingError", "ValueError"} \cup (IF Fixed("msdos_short") THEN {} ELSE {"IndexError"})
     [] OTHER -> {}
